@@ -98,6 +98,7 @@ type sreq struct {
 	Extra      bool     `json:"extra"`
 	Protos     []string `json:"protos"`
 	Exts       []string `json:"exts"`
+	ExtLines   int      `json:"extLines"` // 0/1: one header line, 2: one line per extension
 	keyValue   string
 }
 
@@ -108,7 +109,8 @@ type scfg struct {
 	HasSelector  bool     `json:"hasSelector"`
 	ExtAccept    []string `json:"extAccept"`
 	ExtraHeader  bool     `json:"extraHeader"`
-	ExtMode      string   `json:"extMode"` // none | select | negotiate
+	ExtMode      string   `json:"extMode"`   // none | select | negotiate
+	RejectExt    string   `json:"rejectExt"` // reject=negotiate: the only extension the negotiator objects to ("" = all)
 }
 
 func caseVar(name string, v int) string {
@@ -195,7 +197,7 @@ func (q *sreq) render(rng *rand.Rand) []byte {
 	default:
 		add("Sec-WebSocket-Key", q.Key, key, func() string { return key }, "")
 	}
-	var protoLines []string
+	var protoLines, extLines []string
 	if len(q.Protos) > 0 {
 		if rng.Intn(2) == 0 || len(q.Protos) == 1 {
 			protoLines = []string{caseVar("Sec-WebSocket-Protocol", rng.Intn(4)) + ": " + strings.Join(q.Protos, []string{", ", ",", " , "}[rng.Intn(3)])}
@@ -212,7 +214,14 @@ func (q *sreq) render(rng *rand.Rand) []byte {
 			}
 			parts = append(parts, e)
 		}
-		lines = append(lines, "Sec-WebSocket-Extensions: "+strings.Join(parts, ", "))
+		if q.ExtLines == 2 {
+			for _, p := range parts {
+				extLines = append(extLines, "Sec-WebSocket-Extensions: "+p)
+			}
+		} else {
+			extLines = []string{"Sec-WebSocket-Extensions: " + strings.Join(parts, ", ")}
+		}
+		lines = append(lines, extLines...)
 	}
 	if q.Extra {
 		lines = append(lines, "X-Custom: hello", "Cookie: a=b; c=d")
@@ -232,6 +241,16 @@ func (q *sreq) render(rng *rand.Rand) []byte {
 	}
 	for k, i := range idx {
 		lines[i] = pls[k]
+	}
+	// same for the extension lines (the client's order is significant)
+	idx = idx[:0]
+	for i, l := range lines {
+		if strings.HasPrefix(l, "Sec-WebSocket-Extensions") {
+			idx = append(idx, i)
+		}
+	}
+	for k, i := range idx {
+		lines[i] = extLines[k]
 	}
 	ver := "HTTP/" + q.Version
 	if q.Version == "garbage" {
@@ -338,7 +357,7 @@ func buildUpgrader(c scfg) ws.Upgrader {
 		u.Extension = func(o httphead.Option) bool { return inList(c.ExtAccept, string(o.Name)) }
 	case "negotiate":
 		u.Negotiate = func(o httphead.Option) (httphead.Option, error) {
-			if c.Reject == "negotiate" {
+			if c.Reject == "negotiate" && (c.RejectExt == "" || c.RejectExt == string(o.Name)) {
 				return httphead.Option{}, rejectErr(c.RejectStatus)
 			}
 			if inList(c.ExtAccept, string(o.Name)) {
@@ -427,7 +446,7 @@ func runServer(api string, raw []byte, c scfg, key string) (o sobs, ran bool) {
 				u.Extension = func(o httphead.Option) bool { return inList(c.ExtAccept, string(o.Name)) }
 			case "negotiate":
 				u.Negotiate = func(o httphead.Option) (httphead.Option, error) {
-					if c.Reject == "negotiate" {
+					if c.Reject == "negotiate" && (c.RejectExt == "" || c.RejectExt == string(o.Name)) {
 						return httphead.Option{}, rejectErr(c.RejectStatus)
 					}
 					if inList(c.ExtAccept, string(o.Name)) {
